@@ -109,6 +109,7 @@ Fixpoint evars (e : @expr Qc) : list nat :=
   | EVar x => [x] | ENum _ => [] | EShift _ e => evars e | ESs e => evars e | ENeg e => evars e
   | EAdd a b => evars a ++ evars b | ESub a b => evars a ++ evars b | EMul a b => evars a ++ evars b | EDiv a b => evars a ++ evars b
   | EPow a _ => evars a
+  | EApp _ _ e => evars e
   end.
 Definition outs_of (b : sblock) : list nat := map fst (sb_outs b).
 (** a well-formed evaluation order over names < N: expressions read declared inputs only, a block does not read its own outputs,
